@@ -119,6 +119,24 @@ pub struct Script {
     /// 7 = gzip magic; 8 = all 0xFF
     #[serde(default)]
     pub content_class: u8,
+    /// request method: 0 POST, 1 GET, 2 PUT, 3 DELETE, 4 PATCH, 5 HEAD — a body is legal with any of them
+    #[serde(default)]
+    pub method: u8,
+    /// mode B: how long the transport stalls at the k-th `Pending` (milliseconds of simulated time,
+    /// cyclic; empty = no time passes)
+    #[serde(default)]
+    pub stalls_ms: Vec<u32>,
+}
+
+pub fn method_of(script: &Script) -> http::Method {
+    match script.method {
+        1 => http::Method::GET,
+        2 => http::Method::PUT,
+        3 => http::Method::DELETE,
+        4 => http::Method::PATCH,
+        5 => http::Method::HEAD,
+        _ => http::Method::POST,
+    }
 }
 
 pub fn make_body(script: &Script) -> Vec<u8> {
@@ -217,7 +235,7 @@ pub fn head_for(script: &Script, truthful_len: usize) -> RequestHead {
         Payload::Random => {}
     }
     RequestHead {
-        method: http::Method::POST,
+        method: method_of(script),
         target: "/".parse().unwrap(),
         version: http::Version::HTTP_11,
         headers,
@@ -483,7 +501,13 @@ fn run_frames(script: &Script, tape: &mut Tape, keep: bool) -> RunOut {
     let mut result_b: Option<Result<BufferedBody, ExtractBufferedBodyError>> = None;
     let mut polls = 0u64;
     let mut panicked: Option<String> = None;
-    let result = loop {
+    // The extractor runs where it runs in production: inside a tokio runtime (current thread, clock
+    // paused), so that code which uses tokio's timers neither panics for want of a reactor nor waits in
+    // real time. The futures are still polled by hand, in the order the tape dictates; simulated time
+    // passes only where the script says the transport stalls (`stalls_ms`).
+    let rt = tokio::runtime::Builder::new_current_thread().enable_time().start_paused(true).build().expect("runtime");
+    let mut pendings = 0usize;
+    let result = rt.block_on(async { loop {
         polls += 1;
         if polls > 20 * script.frames.len() as u64 + 200 {
             break None;
@@ -517,13 +541,22 @@ fn run_frames(script: &Script, tape: &mut Tape, keep: bool) -> RunOut {
             Ok(Poll::Ready(r)) => break Some(r),
             Ok(Poll::Pending) => {
                 out.log.sched(format_args!("pending"));
+                if !script.stalls_ms.is_empty() {
+                    let ms = script.stalls_ms[pendings % script.stalls_ms.len()];
+                    pendings += 1;
+                    if ms > 0 {
+                        out.count("transport_stalled_in_simulated_time", 1);
+                        tokio::time::sleep(std::time::Duration::from_millis(ms as u64)).await;
+                    }
+                }
             }
             Err(_) => {
                 panicked = Some(crate::take_panics().join(" | "));
                 break None;
             }
         }
-    };
+    } });
+    let _in_runtime = rt.enter();
     // let the companion finish (a bounded number of polls)
     if let Some(fb) = fut_b.as_mut() {
         let mut extra = 0;
@@ -709,7 +742,7 @@ thread_local! {
 /// The request as bytes, plus the decoded body the framing announces.
 fn wire_message(script: &Script, data: &[u8]) -> (Vec<u8>, Vec<u8>, bool) {
     let mut m = Vec::new();
-    m.extend_from_slice(b"POST /upload HTTP/1.1\r\nhost: sim\r\n");
+    m.extend_from_slice(format!("{} /upload HTTP/1.1\r\nhost: sim\r\n", method_of(script)).as_bytes());
     match script.payload {
         Payload::Json => m.extend_from_slice(b"content-type: application/json\r\n"),
         Payload::Form => m.extend_from_slice(b"content-type: application/x-www-form-urlencoded\r\n"),
@@ -766,8 +799,8 @@ fn wire_message(script: &Script, data: &[u8]) -> (Vec<u8>, Vec<u8>, bool) {
             }
             let mut m = b"PRI * HTTP/2.0\r\n\r\nSM\r\n\r\n".to_vec();
             m.extend(frame(4, 0, 0, &[]));
-            // :method POST, :scheme http, :path /upload, :authority sim
-            let mut block = vec![0x83u8, 0x86];
+            // :method POST (static index 3) or GET (index 2), :scheme http, :path /upload, :authority sim
+            let mut block = vec![if script.method == 1 { 0x82u8 } else { 0x83u8 }, 0x86];
             lit(&mut block, 4, b"/upload");
             lit(&mut block, 1, b"sim");
             match script.payload {
@@ -1320,6 +1353,10 @@ impl Sim for BodySim {
         // late draw: one body in six belongs to a content class an extractor might be tempted to
         // "normalise" (byte order marks, blanks, NULs, chunk-terminator look-alikes, gzip magic)
         let content_class = if rng.chance(1, 6) { 1 + rng.below(8) as u8 } else { 0 };
+        // a body is legal with every method; HTTP/2 runs keep to the two methods of the static table
+        let method = if rng.chance(1, 5) { if matches!(framing, Framing::H2(_)) { 1 } else { 1 + rng.below(5) as u8 } } else { 0 };
+        // mode B: simulated time passes while the transport is `Pending` (mostly none, sometimes seconds)
+        let stalls_ms: Vec<u32> = if !wire && rng.chance(1, 4) { (0..rng.usize(1, 3)).map(|_| *rng.pick(&[0u32, 1, 50, 4_999, 5_001, 6_000, 31_000])).collect() } else { Vec::new() };
         Script {
             wire,
             limit,
@@ -1337,6 +1374,8 @@ impl Sim for BodySim {
             dual,
             limit_default,
             content_class,
+            method,
+            stalls_ms,
         }
     }
 
@@ -1415,6 +1454,16 @@ impl Sim for BodySim {
         if s.content_class != 0 {
             let mut t = s.clone();
             t.content_class = 0;
+            c.push(t);
+        }
+        if s.method != 0 {
+            let mut t = s.clone();
+            t.method = 0;
+            c.push(t);
+        }
+        if !s.stalls_ms.is_empty() {
+            let mut t = s.clone();
+            t.stalls_ms.clear();
             c.push(t);
         }
         if s.hint != Hint::Default {
